@@ -1228,7 +1228,7 @@ type c07Gen struct {
 }
 
 func (g *c07Gen) word() string {
-	if g.r.coin(1, 40) {
+	if g.r.coin(1, 150) {
 		return "t\tab"
 	}
 	return c07Words[g.r.intn(len(c07Words))]
@@ -1269,7 +1269,7 @@ func (g *c07Gen) uri() string {
 
 func (g *c07Gen) refSpec() *c07Ref {
 	s := &c07Ref{Name: c07RefNames[g.r.intn(len(c07RefNames))], Len: g.r.pick([]int{1, 10, 10, 10, 20, 1000, 1<<31 - 1})}
-	if g.r.coin(1, 60) {
+	if g.r.coin(1, 200) {
 		s.Name = "na\tme"
 	}
 	if g.r.coin(1, 4) {
